@@ -35,7 +35,7 @@ def err_str(s):
     return s is not None and s.startswith('(err ')
 
 def has_bad_token(s):
-    return any(tok in s for tok in ('PANIC', 'HANG', 'OVERRUN', 'FUEL', 'RESUMED', 'FOREIGN', 'BAD-DEBUG', 'REPARSE-FAILED'))
+    return any(tok in s for tok in ('PANIC', 'HANG', 'CRASH', 'ITER-MISMATCH', 'STRING-MISMATCH', 'OVERRUN', 'FUEL', 'RESUMED', 'FOREIGN', 'BAD-DEBUG', 'REPARSE-FAILED'))
 
 def ser(t):
     if isinstance(t, list):
@@ -61,6 +61,10 @@ def canon_fir_view(s):
 def canon_fir_bytes(line, b):
     """sort the 8-byte FIR entries of a top-level payload-feedback image"""
     t = toks(line)
+    if len(t) > 2 and t[0] == 'fci' and t[2] == 'fir':
+        # a bare FIR builder: the bytes are the 8-byte entries alone
+        k = len(b) - len(b) % 8
+        return b''.join(sorted(b[i:i + 8] for i in range(0, k, 8))) + b[k:]
     if ((len(t) > 7 and t[0] == 'build' and t[2] == 'fb' and t[7] == 'fir') or
             (len(t) > 5 and t[0] == 'hist' and t[2] == 'fb' and t[5] == 'fir')) and len(b) >= 12:
         pad = b[-1] if (b[0] & 0x20) and b[-1] <= len(b) - 12 else 0
@@ -79,6 +83,13 @@ def writes_of(s):
         else:
             out.append((ser(w), None))
     return out
+
+def uw_of(s):
+    """'((ok 16) xHEX)' (write_into_unchecked on a buffer 8 bytes longer than the size) -> (res-string, bytes)"""
+    t = S.parse(s) if s else None
+    if isinstance(t, list) and len(t) == 2:
+        return ser(t[0]), S.hexbytes(t[1])
+    return None
 
 def bufspecs(line):
     t = toks(line)
@@ -355,15 +366,41 @@ class RoundTrip(Prop):
         # setters repeated): what is accepted must still parse back to the final configuration
         from . import props2
         out += [l for l in props2.history_cases(g, n // 4, kinds=self.members) if l.split()[1].rstrip('q') in ('d', 'pb')]
+        # the written packets reached the other way round: Unknown::parse on the bytes, then try_as / TryFrom (by
+        # reference and by value, and through Packet::from) to the packet's own type
+        ms = [m for m in systematic_members(self.members) if not m.startswith(('unk', 'custom'))]
+        for m, img in zip(ms, h.images(ms)):
+            if img is not None and 4 <= len(img) <= 4096:
+                out.append('parse unknown %s' % hx(img))
         return out
+    UNK_KEYS = ('conv', 'convv', 'pconv', 'pconvv')
+    UNK_TARGETS = ['app', 'bye', 'rr', 'sdes', 'sr', 'tfb', 'pfb']
     def relevant(self, line, impl, model):
+        if kind_of(line) == 'parse':
+            return entry_of(line) == 'unknown'
         if kind_of(line) == 'hist':
             return ok_str(impl.get('size')) or ok_str(model.get('size'))
         return kind_of(line) == 'build' and member_type(line) in self.members and \
             (ok_str(impl.get('size')) or ok_str(model.get('size')))
     def proj(self, line, obs):
+        if kind_of(line) == 'parse':
+            return tuple(canon_fir_view(obs.get(k)) for k in self.UNK_KEYS)
         return (ok_str(obs.get('size')), canon_fir_view(obs.get('rt.r')))
     def oracle(self, line, impl, model):
+        if kind_of(line) == 'parse':
+            b = input_of(line)
+            e = PT_ENTRY.get(b[1]) if len(b) > 1 else None
+            if e not in self.UNK_TARGETS:
+                return []
+            i = self.UNK_TARGETS.index(e)
+            fails = []
+            for k in self.UNK_KEYS:
+                lst = S.parse(impl.get(k, '()')) or []
+                got = ser(lst[i]) if i < len(lst) else 'missing'
+                if not ok_str(got):
+                    fails.append('a packet written by the builder, reached through Unknown::parse and converted to its own '
+                                 'type (%s), is not accepted: %s' % (k, got[:160]))
+            return fails
         if not ok_str(impl.get('size')):
             return []
         want = canon_fir_view(model.get('spec.view'))
@@ -373,9 +410,22 @@ class RoundTrip(Prop):
                     % ((got or 'nothing')[:300], (want or '?')[:300])]
         return []
     def nontrivial(self, line, impl):
-        return ok_str(impl.get('size'))
+        return ok_str(impl.get('size')) or kind_of(line) == 'parse'
 
 # ------------------------------------------------------------------ C06 size announced = size written
+
+def fci_lines(g, n, bufs):
+    """bare FCI builders used as writers: every RPSI string length 0..12 x overrun 0 / 8, the other kinds at
+    random, a few invalid ones"""
+    out = []
+    for ln in range(0, 13):
+        for ov in ((0,) if ln == 0 else (0, 8)):
+            out.append('fci %s rpsi 96 %s %d' % (bufs, hx(bytes(range(1, ln + 1))), ov))
+    out += ['fci %s rpsi 200 01 0' % bufs, 'fci %s rpsi 1 0102 9' % bufs, 'fci %s rpsi 1 - 3' % bufs, 'fci %s pli' % bufs,
+            'fci %s nack 0' % bufs, 'fci %s fir 0' % bufs, 'fci %s sli 0' % bufs]
+    for _ in range(n):
+        out.append('fci %s %s' % (bufs, g.fci()))
+    return out
 
 class C06(Prop):
     name = 'write_into agrees with calculate_size for every buffer length'
@@ -392,9 +442,11 @@ class C06(Prop):
         # call: what the final calculate_size announces must still be what the final write_into writes
         from . import props2
         out += [l for l in props2.history_cases(g, n // 5) if kind_of(l) == 'hist']
+        # the five FCI builders implement the writer trait themselves
+        out += fci_lines(g, n // 10, 'e0:aa,e-1:55,e3:aa,a0:00')
         return out
     def relevant(self, line, impl, model):
-        return kind_of(line) in ('build', 'chunk', 'item', 'hist')
+        return kind_of(line) in ('build', 'chunk', 'item', 'hist', 'fci')
     def proj(self, line, obs):
         return (obs.get('size'), tuple(r for r, _ in writes_of(obs.get('writes'))))
     def oracle(self, line, impl, model):
@@ -420,7 +472,7 @@ class C06(Prop):
                 m = re.fullmatch(r'\((?:ok|err \(OutputTooSmall) (\d+)\)?\)', r)
                 if m:
                     n = int(m.group(1)); break
-        if size is not None and ok_str(size) and kind_of(line) == 'build' and n % 4 != 0:
+        if size is not None and ok_str(size) and kind_of(line) in ('build', 'fci') and n % 4 != 0:
             fails.append('announced size %d is not a multiple of 4' % n)
         if kind_of(line) == 'chunk' and n is not None and n % 4 != 0:
             fails.append('chunk size %d is not a multiple of 4' % n)
@@ -520,9 +572,10 @@ class C17(Prop):
         for _ in range(n // 6):
             out.append('chunk e0:aa,e0:55,e6:aa,e6:55,e-1:aa ' + g.chunk(valid=not g.chance(0.2)))
             out.append('item e0:aa,e0:55,e6:aa,e6:55,e-1:aa ' + g.item(valid=not g.chance(0.2), nonzero=False))
+        out += fci_lines(g, n // 10, 'e0:aa,e0:55,e6:aa,e6:55,e-1:aa')
         return out
     def relevant(self, line, impl, model):
-        return kind_of(line) in ('build', 'chunk', 'item')
+        return kind_of(line) in ('build', 'chunk', 'item', 'fci')
     def proj(self, line, obs):
         # FIR entries are compared up to order inside the n bytes written (HashMap iteration order is random);
         # the rest of the buffer is compared as is
@@ -533,11 +586,21 @@ class C17(Prop):
             if n is None or n > len(b):
                 return b
             return canon_fir_bytes(line, b[:n]) + b[n:]
-        return (tuple((r, canon(r, b)) for r, b in writes_of(obs.get('writes'))),)
+        u = uw_of(obs.get('uw'))
+        return (tuple((r, canon(r, b)) for r, b in writes_of(obs.get('writes'))), (u[0], canon(u[0], u[1])) if u else None)
     def oracle(self, line, impl, model):
         fails = []
         ws = writes_of(impl.get('writes'))
         specs = bufspecs(line)
+        u = uw_of(impl.get('uw'))
+        if u and kind_of(line) == 'build' and specs:
+            # write_into_unchecked called directly on a buffer 8 bytes longer than the size
+            r, b = u
+            n = size_n(r)
+            if n is None:
+                fails.append('write_into_unchecked on a buffer longer than the size did not return normally: ' + r)
+            elif n > len(b) or any(x != specs[0][2] for x in b[n:]):
+                fails.append('write_into_unchecked reported %d bytes and modified bytes beyond them: ..%s' % (n, b[-12:].hex()))
         by_len = collections.defaultdict(list)
         for (r, b), (_, _, fill) in zip(ws, specs):
             if b is None:
